@@ -233,7 +233,7 @@ Theorem C07_delivered_to_the_machine_of_the_next_operation_every_instance :
   forall (sigma : oracle) (i : inst) (fuel : nat) (x0 : state) (joker0 : Z) (ta : bool) (r : result) (m : mw),
     inst_nonneg_b i = true ->
     clock_b x0 = true -> wfs_b i x0 = true -> fresh2_b i x0 = true -> nodep_b x0 = true ->
-    idle_unclaimed_b x0 = true -> pre_ok_b x0 = true ->
+    pre_ok_b x0 = true ->
     reach sigma i fuel x0 joker0 ta r m -> pre_ok_b (r_x r) = true.
 Proof. intros sigma i fuel x0 joker0 ta r m Hnn. apply run_pre_ok; auto. Qed.
 Print Assumptions C07_delivered_to_the_machine_of_the_next_operation_every_instance.
@@ -243,7 +243,7 @@ Theorem C07_delivered_to_the_machine_of_the_next_operation_micro_states_every_in
          (a : Z) (r' : result) (m' : mw) (lg : mlog),
     inst_nonneg_b i = true ->
     clock_b x0 = true -> wfs_b i x0 = true -> fresh2_b i x0 = true -> nodep_b x0 = true ->
-    idle_unclaimed_b x0 = true -> pre_ok_b x0 = true ->
+    pre_ok_b x0 = true ->
     reach sigma i fuel x0 joker0 ta r m -> mw_step sigma i fuel r m a = MOk r' m' lg ->
     forall tr y, In (tr, y) lg -> pre_ok_b y = true.
 Proof. intros sigma i fuel x0 joker0 ta r m a r' m' lg Hnn. apply run_micro_pre_ok; auto. Qed.
